@@ -124,7 +124,7 @@ func zzSetupObjects(s *kube.Store, n int, foreignUID string) (objs []runtime.Obj
 // all-or-nothing and respects the active / inactive role.
 //
 //gosym:harness
-//gosym:cover establish-error establish-ok inactive took-over-from-old foreign-object rejected-object
+//gosym:cover establish-error establish-ok inactive took-over-from-old foreign-object rejected-object revision-without-package-owner
 func HarnessC16Establish() {
 	n := zz.Bound(2, 3)
 	s := kube.New()
@@ -145,6 +145,13 @@ func HarnessC16Establish() {
 
 	control := zz.Bool("control")
 	parent := zzRevision("rev-new", zzNewUID)
+	// a revision created by hand or restored from a backup may lack the owner
+	// reference to its package
+	ownedByPackage := zz.Bool("revision.ownedByPackage")
+	if !ownedByPackage {
+		parent.OwnerReferences = nil
+		zz.Cover("revision-without-package-owner")
+	}
 	e := NewAPIEstablisher(s, "crossplane-system", 10)
 	refs, err := e.Establish(context.Background(), objs, parent, control)
 
@@ -196,7 +203,9 @@ func HarnessC16Establish() {
 		}
 		zz.Assert("at-most-one-controller", ctrl <= 1)
 		zz.Assert("revision-owns-established-object", ours)
-		zz.Assert("package-owns-established-object", pkg)
+		if ownedByPackage {
+			zz.Assert("package-owns-established-object", pkg)
+		}
 		if states[i] == zzOldOwned && control {
 			zz.Cover("took-over-from-old")
 			old := false
